@@ -23,9 +23,9 @@ TOK = re.compile(r'''
  | (?P<op>\|\||&&|==|!=|<=|>=|<<|>>|[-+*/%&|^~!<>=(),])
  | (?P<ws>[ \t]+) | (?P<other>.)''', re.X)
 
-NOCASE_DIRS = {'.define', '.ifdef', '.ifndef', '.undef', '.include', '.includepath', '.device', '.message', '.warning', '.error',
+NOCASE_DIRS = {'.define', '.ifdef', '.ifndef', '.include', '.includepath', '.device', '.message', '.warning', '.error',
                '.macro', '.endm', '.endmacro', '.equ', '.set', '.def', '#define', '#ifdef', '#ifndef'}
-DEFINING = {'.equ', '.set', '.def', '.macro', '.undef', '.define'}
+DEFINING = {'.equ', '.set', '.def', '.macro', '.define'}      # `.undef NAME` REFERS to an alias: its letter case is varied
 
 def split_comment(s):
     """(code, had_comment) — first ; // or /* outside quotes"""
@@ -110,7 +110,7 @@ class Respeller:
                 in_defined = i >= 2 and items[i - 1][1] == '(' and items[i - 2][1].lower() == 'defined'
                 defining = head in DEFINING and i == 0
                 if isreg or not (nocase or in_defined or defining) or (head in ('.equ', '.set', '.def') and i > 0 and not in_defined):
-                    if not defining and not in_defined and head not in ('.define', '.ifdef', '.ifndef', '.undef', '.device', '.macro'):
+                    if not defining and not in_defined and head not in ('.define', '.ifdef', '.ifndef', '.device', '.macro'):
                         txt = self.case(t)
             elif kind in ('hex', 'bin', 'num'):
                 if kind == 'hex': v = int(t[2:] if t[0] == '0' else t[1:], 16)
